@@ -701,7 +701,8 @@ def addressing_program(h, w, zones=8):
             body = []
             for _ in range(ch.choose(4)):
                 rows = rng(h, False) if ch.flag(0.7) else None
-                cols = rng(w, False) if (rows is None or ch.flag(0.5)) else None
+                # neither clause: the stage covers the whole matrix
+                cols = rng(w, False) if ch.flag(0.5 if rows is not None else 0.7) else None
                 body.append(R.Stage(rows, cols, ch.pick(['rc', 'cr'])))
                 body.append(R.SetReg(regs[0], env.num(kinds[0])))
             stmts.append(R.Action('set', [R.Operand('light', R.Str('M'), matrix=('block', body))]))
